@@ -449,8 +449,12 @@ fn twin(what: &str, idx: usize) -> Vec<(String, String)> {
                 let mut nets = vec![];
                 let mut sims = vec![];
                 for (k, d) in ds.iter().enumerate() {
-                    let s = make_sim(t, d, k + 1).unwrap();
-                    nets.push(make_est_times(s.clone(), &t.net.0).unwrap().0);
+                    // a train that cannot be built on this topology (e.g. longer than its origin link): same answer both times
+                    let Ok(s) = make_sim(t, d, k + 1) else { return "train-rejected".into() };
+                    match make_est_times(s.clone(), &t.net.0) {
+                        Ok(n) => nets.push(n.0),
+                        Err(e) => return format!("est-times-rejected:{}", format!("{e:#}").lines().last().unwrap_or("")),
+                    }
                     sims.push(s);
                 }
                 match run_dispatch(&t.net.0, &sims, nets, false, false) {
@@ -472,6 +476,9 @@ fn twin(what: &str, idx: usize) -> Vec<(String, String)> {
     let a = std::thread::spawn(move || guarded(|| run(w1))).join().unwrap_or(Err("thread".into()));
     let b = std::thread::spawn(move || guarded(|| run(w2))).join().unwrap_or(Err("thread".into()));
     if a != b {
+        if std::env::var("MC_LOUD").is_ok() {
+            eprintln!("run 1: {:?}\nrun 2: {:?}", a, b);
+        }
         vec![(format!("two-runs-on-equal-inputs-differ@{what}"), format!("scenario {idx}: outputs differ byte for byte"))]
     } else {
         vec![]
